@@ -572,6 +572,9 @@ def run_case(desc, ctx):
                 if not span.max() > 1e-6 * max(1e-300, float(np.abs(sh.V).max())):  # degenerate box only relative to the mesh's own size (tiny units are fine)
                     continue
                 centred = (kind == "normalize")
+                # conditioning: a small mesh far from the origin (a nano-scale mesh translated by a few units earlier in the history) loses
+                # |coordinate| / extent digits in the subtraction of its centre; the box is then where documented up to that rounding
+                cond = max(1.0, float(np.abs(sh.V).max()) / float(span.max()))
                 if centred:
                     ctx.call("normalize", T.normalize, m, monitor="transform")
                     want = (sh.V - (sh.V.max(axis=0) + sh.V.min(axis=0)) / 2) * (2 / span.max())
@@ -584,10 +587,11 @@ def run_case(desc, ctx):
                 _check_operated(ctx, m, sh, want, kind, 1e-11)
                 lo, hi = sh.V.min(axis=0), sh.V.max(axis=0)
                 ctx.obs("normalize", kind)
+                tolb = 1e-11 * sh.prec + 16 * 2.3e-16 * cond * sh.prec
                 if centred:
-                    good = np.all(np.abs((lo + hi) / 2) <= 1e-11 * sh.prec) and abs((hi - lo).max() - 2) <= 1e-11 * sh.prec
+                    good = np.all(np.abs((lo + hi) / 2) <= tolb) and abs((hi - lo).max() - 2) <= tolb
                 else:
-                    good = np.all(np.abs(lo) <= 1e-11 * sh.prec) and abs((hi - lo).max() - 1) <= 1e-11 * sh.prec
+                    good = np.all(np.abs(lo) <= tolb) and abs((hi - lo).max() - 1) <= tolb
                 if not good:
                     ctx.violation("normalize", kind, "bounding_box_not_where_documented", "after normalising the bounding box is not where documented",
                                   lo=lo.tolist(), hi=hi.tolist(), producer=sh.producer)
